@@ -27,7 +27,9 @@ TS2 = "2016-03-14T02:00:00.5Z"           # later instant
 TS1E = "2016-03-14T01:59:00.000Z"        # same instant as TS1, other number of fractional digits (as text it sorts after TS1)
 TS1F = "2016-03-14T01:59:00.5Z"          # half a second after TS1 (as text it sorts before TS1: '.' < 'Z')
 MISSING = "<missing>"
-VARIABLES = [MISSING, None, True, False, 0, 1, -1, 1.5, "", "a", "b", "A", "a*", TS1, TS1B, TS1C, TS1D, TS1E, TS1F, TS2, "not-a-timestamp", [], {}, {"x": 1}]
+VARIABLES = [MISSING, None, True, False, 0, 1, -1, 1.5, "", "a", "b", "A", "a*", TS1, TS1B, TS1C, TS1D, TS1E, TS1F, TS2, "not-a-timestamp", [], {}, {"x": 1},
+             # near misses of the timestamp grammar: strings, not timestamps
+             "2016-03-14T01:59:00x01:00", "2016-03-14T01:59:00+0100", "2016-03-14T01:59:00+01:60", "2016-03-14T01:59:00+01-00", "2016-03-14T1:59:00Z", "2016-03-14T01:59:00", "2016-13-14T01:59:00Z"]
 STR_CONSTS = ["", "a", "b", "A", "a*", TS1]
 NUM_CONSTS = [0, 1, -1, 1.5, 2]
 BOOL_CONSTS = [True, False]
